@@ -83,6 +83,10 @@ TEXT = {
             'Four template composers x embedding paths x ALL merge sequences up to length 3/4 x three engine entry points x schema overrides; union model for merges, deep-equality snapshots of merged-in and unrelated composites (then and later), trajectory equality across entry points and re-rooted embeddings.',
             'Entry points compared on an explicit initial state; K5 (no explicit state) is a known finding.',
             'bounded exhaustive enumeration of merge sequences and entry points with a union model and differential trajectories'),
+    'C13': ('fault_enumeration', '3/C13',
+            'Real worker OS processes. Every parallel subset of schedule, step/deriver and structural worlds is run next to its all-serial twin (rows, final state, published composite must be equal), and every stop point is enumerated: end() after each driver call, end() twice, engine dropped without end(), an exception injected into the j-th call of a serial or a parallel process followed by end(), and deletion/division/move/generation at ticks that leave the worker idle, due in the same batch or in flight (small and pipe-buffer-exceeding updates, operator listed before or after the victim). No still-pending error (also from __del__), end() returns, every worker pid is gone within the watchdog.',
+            'Worker liveness by pid; ParallelProcess.__init__ wrapped in the harness to record pids; K2 is a known finding.',
+            'exhaustive fault/stop-point enumeration over real worker processes with a serial-vs-parallel differential oracle'),
 }
 
 LEVEL_TEXT = {}
